@@ -238,6 +238,9 @@ func delayPlans(budget time.Duration) []delayPlan {
 		}},
 		{"sub-ms", func(i, n int) (time.Duration, []time.Duration) { return time.Duration(37+i) * time.Microsecond, nil }},
 		{"multi-delay", func(i, n int) (time.Duration, []time.Duration) { return time.Duration(260+251*i) * ms, nil }},
+		// parallel variants: the first ten hops answer inside the LAST poll interval before the listening deadline
+		// (delays are computed in the model from the run's own timeout and send delay); serial variants: ordinary
+		{"last-poll", func(i, n int) (time.Duration, []time.Duration) { return time.Duration(15+4*i) * ms, nil }},
 		// the reply leaves its own (serial) window and is read while a later probe is outstanding
 		{"window-crossing", func(i, n int) (time.Duration, []time.Duration) {
 			return budget + 250*ms + 150*ms + time.Duration(7*i)*ms, nil
@@ -326,6 +329,10 @@ func checkC05() fw.Check {
 													if dp.name != "window-crossing" && d >= e.spec.Timeout-150*time.Millisecond {
 														d = e.spec.Timeout - 150*time.Millisecond - time.Duration(t)*time.Millisecond
 													}
+												}
+												if dp.name == "last-poll" && !v.Serial && t-w.first < 10 {
+													// arrival = first send + timeout + n*delay - (5+9k) ms: between the last poll boundary and the deadline
+													d = e.spec.Timeout + time.Duration(n)*e.spec.Delay - time.Duration(t-w.first)*e.spec.Delay - time.Duration(5+9*(t-w.first))*time.Millisecond
 												}
 												m.hops[t] = &hopSpec{addr: routerAddr(v.V6, 1, t), delay: d, dups: dups}
 											}
@@ -453,6 +460,9 @@ func checkC06() fw.Check {
 								{"at-send-instant", mid, func(s drive.Spec) time.Duration { return s.Delay * 2 }, false},
 								{"immediately", w.first, func(s drive.Spec) time.Duration { return time.Millisecond }, false},
 								{"slow-send", 0, nil, true},
+								// listening timeout far below the send delay (30 ms / 250 ms) with silent hops: the next probe may
+								// only leave a full send delay after the previous one, however early the wait for a reply ended
+								{"short-timeout", 0, nil, false},
 							}
 							if n > 100 && tier != "thorough" {
 								classes = classes[:2]
@@ -466,6 +476,9 @@ func checkC06() fw.Check {
 											if v.Serial {
 												s.Timeout = 200 * time.Millisecond
 											}
+										}
+										if dc.name == "short-timeout" {
+											s.Timeout, s.Delay = 30*time.Millisecond, 250*time.Millisecond
 										}
 									},
 									model: func(e *simEnv) *pathModel {
